@@ -368,6 +368,11 @@ def collection_stream(ctx, n):
             ctx.case(desc)
             ctx.count("collection:vertex-level-line")
             compare_sets(ctx, "C18:collection:vertex-level-line", desc, exp, call_impl(lambda: P.intersect(L)))
+            # the same question after the measures of the collection have been read (planes not through the origin): same answer
+            def again():
+                _ = (P.area, list(P.vertices))
+                return P.intersect(L)
+            compare_sets(ctx, "C18:collection:after-area", desc + " asked again after .area", exp, call_impl(again))
             singles = []
             for z in zs:
                 r = call_impl(lambda: g.Polygon(tri(z)).intersect(L))
